@@ -35,9 +35,9 @@ def worker_init(ctx):
 
     def sink(ev, p):
         if ev == "enter":
-            _EVENTS.append(("enter", fingerprint(p["net"]), repr(sorted(pipeflow_setup.default_options.items(), key=str))))
+            _EVENTS.append(("enter", fingerprint(p["net"], per_column=True), repr(sorted(pipeflow_setup.default_options.items(), key=str))))
         elif ev == "exit":
-            _EVENTS.append(("exit", fingerprint(p["net"]), repr(sorted(pipeflow_setup.default_options.items(), key=str)),
+            _EVENTS.append(("exit", fingerprint(p["net"], per_column=True), repr(sorted(pipeflow_setup.default_options.items(), key=str)),
                             p["exc"] is not None))
     v.register(sink)
 
